@@ -185,6 +185,7 @@ func cmdCheck(args []string) int {
 	}
 	var viols []viol
 	var knownHit []string
+	canarySeen := map[string]bool{}
 	discharged, bounded := 0, 0
 	bySolver := map[string]int{}
 	var solverTime float64
@@ -197,10 +198,9 @@ func cmdCheck(args []string) int {
 			continue
 		}
 		if o.Kind == "known-finding-canary" {
-			if o.Status == "discharged" { // the recorded region still fails
+			canarySeen[o.Note] = true
+			if o.Status != "discharged" { // inside the recorded region the obligation still does not hold
 				knownHit = append(knownHit, o.Note)
-			} else {
-				fmt.Printf("note: known finding no longer reproduces (%s): %s\n", o.Name, o.Output)
 			}
 			continue
 		}
@@ -214,6 +214,17 @@ func cmdCheck(args []string) int {
 			continue
 		}
 		viols = append(viols, viol{o: o})
+	}
+	for note := range canarySeen {
+		found := false
+		for _, h := range knownHit {
+			if h == note {
+				found = true
+			}
+		}
+		if !found {
+			fmt.Printf("note: a recorded known finding no longer reproduces (its obligation now holds inside the recorded region): %s\n", clip(note, 160))
+		}
 	}
 	vacuous := nonBounded == 0
 	rc := 0
